@@ -429,6 +429,37 @@ static std::string rtxb_shape(const char *t)
   return out;
 }
 
+// the text without a trailing annotation " (14)" / " (offset=-2)" (see ANNOT in tools/cpu_sweep.py: blank-separated,
+// purely decimal, behind an operand)
+static std::string rtxb_instr_text(const char *t)
+{
+  std::string s(t);
+  size_t e = s.size();
+  while (e > 0 && (s[e - 1] == ' ' || s[e - 1] == '\t')) { e--; }
+  if (e == 0 || s[e - 1] != ')') { return s; }
+  size_t open = s.rfind('(', e - 1);
+  if (open == std::string::npos || open == 0) { return s; }
+  size_t i = open + 1;
+  if (s.compare(i, 7, "offset=") == 0) { i += 7; }
+  if (i < e - 1 && s[i] == '-') { i++; }
+  if (i >= e - 1) { return s; }
+  for (size_t j = i; j < e - 1; j++) { if (!isdigit((unsigned char)s[j])) { return s; } }
+  size_t b = open;
+  if (s[b - 1] != ' ' && s[b - 1] != '\t') { return s; }
+  while (b > 0 && (s[b - 1] == ' ' || s[b - 1] == '\t')) { b--; }
+  if (b == 0) { return s; }
+  // the token before the annotation is an operand that contains a digit (the target address)
+  bool digit = false;
+  for (size_t j = b; j > 0; j--)
+  {
+    unsigned char c = (unsigned char)s[j - 1];
+    if (c == ' ' || c == '\t' || c == ',' || c == '(') { break; }
+    if (isdigit(c)) { digit = true; }
+  }
+  if (!digit) { return s; }
+  return s.substr(0, b);
+}
+
 static void rtxb_child(RtxbShared *sh, CpuList *cpu, disasm_one_t f, uint32_t addr, const std::string &tail,
                        size_t off, int from, int to, int k)
 {
@@ -461,7 +492,7 @@ static void rtxb_child(RtxbShared *sh, CpuList *cpu, disasm_one_t f, uint32_t ad
     if (k > 0 && ++shapes[rtxb_shape(text1)] > k) { alarm(0); continue; }
     sh->uniq++;
     std::string b2;
-    int rc = isa_asm_text(cpu, addr, text1, b2);
+    int rc = isa_asm_text(cpu, addr, rtxb_instr_text(text1), b2);
     if (rc != 0) { alarm(0); continue; }
     sh->acc++;
     if (b2 == key) { sh->same++; alarm(0); continue; }
